@@ -503,5 +503,234 @@ theorem build_run {F : BodyFn} {P : Project} {cfg : Cfg} {w : World} {picks : Li
     obtain ⟨a', ha', hv'⟩ := this
     exact tv_injective hv' ▸ ha'
 
+/-! ## the converse: only blocked tasks are ever reported SKIP -/
+
+/-- Not eligible under the selection, or in the skip closure. -/
+def Blocked (P : Project) (g : G) (cfg : Cfg) (t : Nat) : Prop := ¬ Eligible g cfg t ∨ InSkipClosure P g t
+
+theorem Blocked.desc {t d : Nat} (h : Blocked P g cfg t) (hd : d ∈ taskDesc g t) : Blocked P g cfg d := by
+  rcases h with h | ⟨a, hu, rfl | hta⟩
+  · exact .inl (fun he => h (he.anc (mem_taskDesc_iff_mem_taskAnc.1 hd)))
+  · exact .inr ⟨t, hu, .inr hd⟩
+  · by_cases e : d = a
+    · exact .inr ⟨a, hu, .inl e⟩
+    · have p1 := (mem_taskDesc.1 hta).1
+      have p2 := (mem_taskDesc.1 hd).1
+      exact .inr ⟨a, hu, .inr (mem_taskDesc.2 ⟨p1.trans p2, e⟩)⟩
+
+theorem Steps.blocked_inv {picks : List Nat} {s s' : Sess} (h : Steps F P g cfg s picks s')
+    (h0 : ∀ x ∈ s.skipMarks, Blocked P g cfg x) :
+    (∀ x ∈ s'.skipMarks, Blocked P g cfg x) ∧
+    (∀ u, (u, Outcome.skip) ∈ s'.reports → (u, Outcome.skip) ∈ s.reports ∨ Blocked P g cfg u) := by
+  induction h with
+  | nil => exact ⟨h0, fun _ h => .inl h⟩
+  | @cons s t spec ts s' hf _ ih =>
+    have hid := find?_id hf
+    by_cases hsk : SkipCond s spec
+    · have hbt : Blocked P g cfg t := by
+        rcases hsk with h | h | h
+        · exact .inr ⟨t, ⟨spec, hf, .inl h⟩, .inl rfl⟩
+        · exact .inr ⟨t, ⟨spec, hf, .inr h⟩, .inl rfl⟩
+        · exact h0 t (hid ▸ h)
+      have h0' : ∀ x ∈ (protocol F P g cfg s spec).skipMarks, Blocked P g cfg x := by
+        rw [protocol_skipped hsk]
+        intro x hx
+        simp only [List.mem_append] at hx
+        rcases hx with hx | hx
+        · exact h0 x hx
+        · exact hbt.desc (hid ▸ hx)
+      obtain ⟨i1, i2⟩ := ih h0'
+      refine ⟨i1, fun u hu => ?_⟩
+      rcases i2 u hu with hu | hu
+      · rw [protocol_skipped hsk] at hu
+        simp only [List.mem_append, List.mem_singleton, Prod.mk.injEq] at hu
+        rcases hu with hu | ⟨rfl, _⟩
+        · exact .inl hu
+        · exact .inr (hid ▸ hbt)
+      · exact .inr hu
+    · obtain ⟨hm, hr⟩ := protocol_not_skipped (F := F) (P := P) (g := g) (cfg := cfg) hsk
+      obtain ⟨i1, i2⟩ := ih (by rw [hm]; exact h0)
+      refine ⟨i1, fun u hu => ?_⟩
+      rcases i2 u hu with hu | hu
+      · rcases hr with hr | ⟨o, ho, hr⟩
+        · exact .inl (hr ▸ hu)
+        · rw [hr] at hu
+          simp only [List.mem_append, List.mem_singleton, Prod.mk.injEq] at hu
+          rcases hu with hu | ⟨_, e⟩
+          · exact .inl hu
+          · exact absurd e.symm ho
+      · exact .inr hu
+
+/-! ## exit code: a crash of the loop comes from a task whose body ran -/
+
+theorem runBody_not_raised {F : BodyFn} {t : TaskSpec} {fs : FS} (h : (runBody F t fs).2 = false) :
+    behInvokes t.beh = true := by
+  cases hb : t.beh <;> simp only [behInvokes]
+  exfalso
+  unfold runBody at h
+  rw [hb] at h
+  simp only [] at h
+  split at h <;> cases h
+
+theorem runPhases_none_log {F : BodyFn} {P : Project} {g : G} {cfg : Cfg} {s : Sess} {t : TaskSpec}
+    (h : (runPhases F P g cfg s t).1 = .none) : (runPhases F P g cfg s t).2.log = s.log ++ [t.id] := by
+  by_cases hn : setupChain P g cfg s t Generated.setupOrder = .none
+  · unfold runPhases at h ⊢
+    rw [hn] at h ⊢
+    simp only [] at h ⊢
+    split at h
+    · cases h
+    · split at h
+      · cases h
+      · rename_i hr
+        have := runBody_not_raised (by simpa using hr)
+        split at h
+        · cases h
+        · simp [hr, this, *]
+  · rw [runPhases_of_raise rfl hn] at h
+    exact absurd h hn
+
+theorem updateStates_ok {P : Project} {g : G} {t : Nat} : ∀ (ns : List Nat) (w : World),
+    (∀ v ∈ ns, (stateOf P w v).isSome = true) → (updateStates P g w t ns).2 = true
+  | [], _, _ => rfl
+  | v :: vs, w, h => by
+    unfold updateStates
+    have hv := h v (by simp)
+    cases hs : stateOf P w v with
+    | none => simp [hs] at hv
+    | some x =>
+      simp only []
+      apply updateStates_ok vs
+      intro v' hv'
+      have := h v' (by simp [hv'])
+      simpa [stateOf] using this
+
+/-- The persist implementation raised: every neighbour has a state, and one of them changed. -/
+def PersistCond (P : Project) (g : G) (s : Sess) (t : TaskSpec) : Prop :=
+  t.persist = true ∧ (∀ v ∈ neighbours g t.id, (stateOf P s.w v).isSome = true) ∧
+  ∃ v ∈ neighbours g t.id, hasChanged s.w t.id v (stateOf P s.w v) = true
+
+theorem setupImpl_persist_iff {P : Project} {g : G} {cfg : Cfg} {s : Sess} {t : TaskSpec} :
+    setupImpl P g cfg s t "persist" = .persisted ↔ PersistCond P g s t := by
+  have e : setupImpl P g cfg s t "persist" =
+      if t.persist then
+        (if ((neighbours g t.id).map (stateOf P s.w)).all (·.isSome) then
+          (if ((neighbours g t.id).zip ((neighbours g t.id).map (stateOf P s.w))).any
+                (fun (v, st) => hasChanged s.w t.id v st) then .persisted else .none)
+        else .none)
+      else .none := by
+    simp [setupImpl]
+  rw [e]
+  unfold PersistCond
+  have hz : ∀ (l : List Nat), (l.zip (l.map (stateOf P s.w))).any (fun (v, st) => hasChanged s.w t.id v st) = true ↔
+      ∃ v ∈ l, hasChanged s.w t.id v (stateOf P s.w v) = true := by
+    intro l
+    induction l with
+    | nil => simp
+    | cons x xs ih => simp only [List.map_cons, List.zip_cons_cons, List.any_cons, Bool.or_eq_true, ih, List.mem_cons, exists_eq_or_imp]
+  by_cases h1 : t.persist = true
+  · by_cases h2 : ∀ v ∈ neighbours g t.id, (stateOf P s.w v).isSome = true
+    · have h2' : ((neighbours g t.id).map (stateOf P s.w)).all (·.isSome) = true := by simpa using h2
+      by_cases h3 : ∃ v ∈ neighbours g t.id, hasChanged s.w t.id v (stateOf P s.w v) = true
+      · simp only [h1, h2', (hz _).2 h3, if_true, true_and]
+        exact ⟨fun _ => ⟨h2, h3⟩, fun _ => trivial⟩
+      · have : ¬ ((neighbours g t.id).zip ((neighbours g t.id).map (stateOf P s.w))).any (fun (v, st) => hasChanged s.w t.id v st) = true :=
+          fun h => h3 ((hz _).1 h)
+        simp only [h1, h2', this, if_true]
+        simp [h3]
+    · have h2' : ¬ ((neighbours g t.id).map (stateOf P s.w)).all (·.isSome) = true := by simpa using h2
+      simp only [h1, h2', if_true]
+      simp [h2]
+  · simp [h1]
+
+theorem setupImpl_skipping_none {P : Project} {g : G} {cfg : Cfg} {s : Sess} {t : TaskSpec} :
+    setupImpl P g cfg s t "skipping" = .none ↔ ¬ SkipCond s t ∧ t.id ∉ s.failMarks := by
+  rw [setupImpl_skipping]
+  unfold SkipCond
+  by_cases h1 : t.skip = true <;> by_cases h2 : t.id ∈ s.skipMarks <;> by_cases h3 : t.skipif = true <;>
+    by_cases h4 : t.id ∈ s.failMarks <;> simp [h1, h2, h3, h4]
+
+theorem setupImpl_skipping_ne_persisted {P : Project} {g : G} {cfg : Cfg} {s : Sess} {t : TaskSpec} :
+    setupImpl P g cfg s t "skipping" ≠ .persisted := by
+  rw [setupImpl_skipping]
+  split <;> (try split) <;> (try split) <;> simp
+
+theorem setupImpl_execute_ne_persisted {P : Project} {g : G} {cfg : Cfg} {s : Sess} {t : TaskSpec} :
+    setupImpl P g cfg s t "execute" ≠ .persisted := by
+  simp only [setupImpl]; simp; split <;> (try split) <;> simp
+
+/-- The setup chain ends in `Persisted` exactly when the skipping implementation lets the task pass
+(no skip mark of any origin, no failed ancestor) and the persist implementation raises. -/
+theorem setupChain_persisted_iff {P : Project} {g : G} {cfg : Cfg} {s : Sess} {t : TaskSpec} :
+    setupChain P g cfg s t Generated.setupOrder = .persisted ↔
+      (¬ SkipCond s t ∧ t.id ∉ s.failMarks) ∧ PersistCond P g s t := by
+  rw [setupChain_order, ← setupImpl_skipping_none (P := P) (g := g) (cfg := cfg),
+    ← setupImpl_persist_iff (cfg := cfg)]
+  have h1 := setupImpl_skipping_ne_persisted (P := P) (g := g) (cfg := cfg) (s := s) (t := t)
+  have h3 := setupImpl_execute_ne_persisted (P := P) (g := g) (cfg := cfg) (s := s) (t := t)
+  cases e1 : setupImpl P g cfg s t "skipping" <;> simp only [] <;> (try simp_all)
+  cases e2 : setupImpl P g cfg s t "persist" <;> simp only [] <;> simp_all
+
+theorem runPhases_persisted_iff {F : BodyFn} {P : Project} {g : G} {cfg : Cfg} {s : Sess} {t : TaskSpec} :
+    (runPhases F P g cfg s t).1 = .persisted ↔ (¬ SkipCond s t ∧ t.id ∉ s.failMarks) ∧ PersistCond P g s t := by
+  rw [← setupChain_persisted_iff (cfg := cfg)]
+  by_cases hn : setupChain P g cfg s t Generated.setupOrder = .none
+  · rcases runPhases_of_none (F := F) hn with h | h | h <;> simp [h, hn]
+  · rw [runPhases_of_raise rfl hn]
+
+theorem recordStates_ok {P : Project} {g : G} {cfg : Cfg} {w : World} {t : Nat}
+    (h : ∀ v ∈ neighbours g t, (stateOf P w v).isSome = true) : (recordStates P g cfg w t).2 = true := by
+  unfold recordStates
+  split
+  · rfl
+  · exact updateStates_ok _ _ h
+
+/-- A persisted task: reported PERSISTENCE, body not run, no file touched, states recorded. -/
+theorem protocol_persisted {F : BodyFn} {P : Project} {g : G} {cfg : Cfg} {s : Sess} {t : TaskSpec}
+    (h1 : ¬ SkipCond s t) (h2 : t.id ∉ s.failMarks) (h3 : PersistCond P g s t) :
+    protocol F P g cfg s t =
+      { s with w := (recordStates P g cfg s.w t.id).1, reports := s.reports ++ [(t.id, Outcome.persistence)],
+               crashed := false } := by
+  unfold protocol
+  rw [runPhases_of_raise (setupChain_persisted_iff.2 ⟨⟨h1, h2⟩, h3⟩) (by simp)]
+  simp only [processReport]
+  rw [recordStates_ok h3.2.1]
+  rfl
+
+/-- If the loop is aborted by `update_states_in_database` raising, that happened in the protocol of
+a task whose body had just run. -/
+theorem protocol_crashed {F : BodyFn} {P : Project} {g : G} {cfg : Cfg} {s : Sess} {t : TaskSpec}
+    (h : (protocol F P g cfg s t).crashed = true) : s.crashed = true ∨ t.id ∈ (protocol F P g cfg s t).log := by
+  obtain ⟨_, _, _, _, _, _, f7, _⟩ := runPhases_fields F P g cfg s t
+  cases hr : (runPhases F P g cfg s t).1
+  case persisted =>
+    obtain ⟨⟨h1, h2⟩, h3⟩ := runPhases_persisted_iff.1 hr
+    rw [protocol_persisted h1 h2 h3] at h
+    cases h
+  case none =>
+    right
+    unfold protocol
+    rw [processReport_log, runPhases_none_log hr]
+    simp
+  all_goals
+    left
+    have h' : (processReport P g cfg (runPhases F P g cfg s t).2 t (runPhases F P g cfg s t).1).crashed = true := h
+    rw [hr] at h'
+    simp only [processReport] at h'
+    rw [← f7]; exact h'
+
+theorem Steps.crashed_log {picks : List Nat} {s s' : Sess} (h : Steps F P g cfg s picks s')
+    (h0 : s.crashed = true → ∃ u, u ∈ s.log) : s'.crashed = true → ∃ u, u ∈ s'.log := by
+  induction h with
+  | nil => exact h0
+  | @cons s t spec ts s' hf _ ih =>
+    apply ih
+    intro hc
+    rcases protocol_crashed hc with h | h
+    · obtain ⟨u, hu⟩ := h0 h
+      refine ⟨u, ?_⟩
+      rcases protocol_log F P g cfg s spec with hl | hl <;> rw [hl] <;> simp [hu]
+    · exact ⟨_, h⟩
+
 end Engine
 end Pytask
